@@ -571,6 +571,10 @@ def make_iter(I, v, node):
     hook = getattr(v, "__sym_iter__", None)
     if hook:
         return hook(I)
+    if isinstance(v, SObj) and v.cls is not None and "__iter__" in {n_ for k_ in v.cls.__mro__ for n_ in k_.__dict__} \
+            and (getattr(v.cls, "__module__", "") or "").startswith("pdfminer"):
+        # a repository class with its own __iter__ (LTContainer): iterate what the real method returns
+        return make_iter(I, I.call(class_attr(I, v, v.cls, "__iter__"), [], {}, node), node)
     import collections.abc as _abc
     if isinstance(v, _abc.Iterator) and type(v).__module__ in ("builtins", "re", "itertools"):
         items = list(v)
